@@ -52,7 +52,7 @@ def schedules(maxcalls, maxbatch, with_solve):
 class Group:
     """A set of real solvers driven by one schedule; every solver not in a call is observed after every step of any other."""
 
-    def __init__(self, rng, k, tag, lazy, share_problem, share_params=False, force_refine=False):
+    def __init__(self, rng, k, tag, lazy, share_problem, share_params=False, force_refine=False, faults=None):
         self.rng = rng
         self.specs = []
         self.shared_params = None
@@ -100,6 +100,8 @@ class Group:
             import io
             with contextlib.redirect_stdout(io.StringIO()):
                 self.bystander.DoGlobalIteration(2)
+        for j, flt in (faults or {}).items():
+            self.specs[j - 1]["fault"] = flt          # (before any solver of the group is built)
         if not lazy:
             for j in range(1, k + 1):
                 self.get(j)
@@ -230,9 +232,8 @@ def run(ctx):
     # one solver's objective is interrupted (KeyboardInterrupt / SystemExit / GeneratorExit raised inside it, contained by its Solve): the
     # others, running before, in between and afterwards, are not concerned
     for gi in range(2 if qk else 10):
-        g = Group(rng, 3, "interrupted%d" % gi, lazy=rng.random() < 0.5, share_problem=False)
         exc = [KeyboardInterrupt, SystemExit, GeneratorExit][gi % 3]
-        g.specs[0]["fault"] = (rng.choice([2, 3, 5]), exc())
+        g = Group(rng, 3, "interrupted%d" % gi, lazy=rng.random() < 0.5, share_problem=False, faults={1: (rng.choice([2, 3, 5]), exc())})
         g.play([(2, "dgi", 2, 0), (1, "solve", 0, 0), (2, "solve", 0, 0), (3, "dgi", 3, 0), (3, "solve", 0, 0)])
         runs += g.finish(pairs, "interrupted bystander")
     # every solver refines its solution (refineSolution=True): Solutions returned by earlier Solve calls are observed after each later
